@@ -594,6 +594,12 @@ let rec forallb f = function
 | [] -> true
 | a :: l0 -> (&&) (f a) (forallb f l0)
 
+(** val filter : ('a1 -> bool) -> 'a1 list -> 'a1 list **)
+
+let rec filter f = function
+| [] -> []
+| x :: l0 -> if f x then x :: (filter f l0) else filter f l0
+
 (** val repeat : 'a1 -> nat -> 'a1 list **)
 
 let rec repeat x = function
@@ -7863,6 +7869,3146 @@ let run_run = function
                | None -> bad_input)
             | _ :: _ -> bad_input))))
 
+(** val member_type : char list -> member list -> char list option **)
+
+let rec member_type x = function
+| [] -> None
+| m :: r -> if eqb0 x m.m_name then Some m.m_type else member_type x r
+
+(** val count_member : char list -> member list -> nat **)
+
+let rec count_member x = function
+| [] -> O
+| m :: r -> add (if eqb0 x m.m_name then S O else O) (count_member x r)
+
+(** val column_types :
+    member list -> branch list -> (char list * char list) list option **)
+
+let rec column_types ms = function
+| [] -> Some []
+| b :: r ->
+  (match member_type b.br_var ms with
+   | Some t ->
+     (match column_types ms r with
+      | Some r' -> Some ((b.br_var, t) :: r')
+      | None -> None)
+   | None -> None)
+
+(** val nodup_str : char list list -> bool **)
+
+let rec nodup_str = function
+| [] -> true
+| x :: r -> (&&) (negb (mem_str x r)) (nodup_str r)
+
+(** val col_type :
+    char list -> (char list * char list) list -> char list option **)
+
+let rec col_type x = function
+| [] -> None
+| p :: r -> let (y, t) = p in if eqb0 x y then Some t else col_type x r
+
+(** val is_col : (char list * char list) list -> char list -> bool **)
+
+let is_col cols x =
+  match col_type x cols with
+  | Some _ -> true
+  | None -> false
+
+(** val is_vec_col : (char list * char list) list -> char list -> bool **)
+
+let is_vec_col cols x =
+  match col_type x cols with
+  | Some t -> is_vector_type t
+  | None -> false
+
+(** val is_scalar_col : (char list * char list) list -> char list -> bool **)
+
+let is_scalar_col cols x =
+  match col_type x cols with
+  | Some t -> negb (is_vector_type t)
+  | None -> false
+
+(** val vec_cols : (char list * char list) list -> char list list **)
+
+let vec_cols cols =
+  map fst (filter (fun c -> is_vector_type (snd c)) cols)
+
+(** val none_is_col :
+    (char list * char list) list -> char list list -> bool **)
+
+let none_is_col cols ids =
+  forallb (fun x -> negb (is_col cols x)) ids
+
+(** val strip_clears : char list list -> stmts -> stmts option **)
+
+let rec strip_clears xs l =
+  match xs with
+  | [] -> Some l
+  | x :: r ->
+    (match l with
+     | SNil -> None
+     | SCons (s, l') ->
+       (match s with
+        | SClear y -> if eqb0 x y then strip_clears r l' else None
+        | _ -> None))
+
+(** val fill_line_ok : bool -> char list -> char list -> bool **)
+
+let fill_line_ok atlas tree line =
+  (&&) (negb (eqb0 tree []))
+    (if atlas
+     then eqb0 line
+            (append ('t'::('r'::('e'::('e'::('('::('"'::[]))))))
+              (append tree
+                ('"'::(')'::('-'::('>'::('F'::('i'::('l'::('l'::('('::(')'::(';'::[])))))))))))))
+     else eqb0 line
+            ('m'::('y'::('T'::('r'::('e'::('e'::('-'::('>'::('F'::('i'::('l'::('l'::('('::(')'::(';'::[]))))))))))))))))
+
+(** val ok_block :
+    bool -> char list -> (char list * char list) list -> block -> bool **)
+
+let ok_block atlas tree cols =
+  let rec ok_stmt = function
+  | SSet (x, _, _) -> (||) (negb (is_col cols x)) (is_scalar_col cols x)
+  | SPush (x, _, _) -> (||) (negb (is_col cols x)) (is_vec_col cols x)
+  | SClear x -> (||) (negb (is_col cols x)) (is_vec_col cols x)
+  | SFill line -> fill_line_ok atlas tree line
+  | SThrow _ -> true
+  | SFetch (_, target, _, _, _) -> negb (is_col cols target)
+  | SIota (v, _) -> negb (is_col cols v)
+  | SUser (_, ids, target) ->
+    (&&) (none_is_col cols ids)
+      (match target with
+       | Some t -> negb (is_col cols t)
+       | None -> true)
+  | SLine (_, ids) -> none_is_col cols ids
+  | SFor (x, _, b) -> (&&) (negb (is_col cols x)) (ok_block0 b)
+  | SIf (_, b, els) ->
+    (&&) (ok_block0 b) (match els with
+                        | Some b2 -> ok_block0 b2
+                        | None -> true)
+  | SBlk b -> ok_block0 b
+  and ok_block0 = function
+  | Blk (ds, body) ->
+    (&&) (forallb (fun d -> negb (is_col cols d.d_name)) ds) (ok_stmts body)
+  and ok_stmts = function
+  | SNil -> true
+  | SCons (s, r) ->
+    (&&)
+      ((&&) (ok_stmt s)
+        (match s with
+         | SFill _ ->
+           (match strip_clears (vec_cols cols) r with
+            | Some _ -> true
+            | None -> false)
+         | _ -> true)) (ok_stmts r)
+  in ok_block0
+
+(** val branches_ok : program -> bool **)
+
+let branches_ok p =
+  (&&) (nodup_str (map (fun b -> b.br_var) p.p_branches))
+    (forallb (fun b -> Nat.eqb (count_member b.br_var p.p_members) (S O))
+      p.p_branches)
+
+(** val fill_consistent_for : bool -> program -> bool **)
+
+let fill_consistent_for atlas p =
+  match column_types p.p_members p.p_branches with
+  | Some cols -> (&&) (branches_ok p) (ok_block atlas p.p_tree cols p.p_body)
+  | None -> false
+
+(** val run_fillcheck : sexp -> sexp **)
+
+let run_fillcheck = function
+| SAtom _ -> bad_input
+| SList l ->
+  (match l with
+   | [] -> bad_input
+   | a :: l0 ->
+     (match l0 with
+      | [] -> bad_input
+      | p :: l1 ->
+        (match l1 with
+         | [] ->
+           (match d_bool a with
+            | Some a' ->
+              (match d_program p with
+               | Some p' ->
+                 SList
+                   ((s_bool (fill_consistent_for a' p')) :: ((s_bool
+                                                               (branches_ok
+                                                                 p')) :: ((
+                   match column_types p'.p_members p'.p_branches with
+                   | Some cols ->
+                     SList
+                       (map (fun c -> SList ((SAtom (fst c)) :: ((SAtom
+                         (snd c)) :: []))) cols)
+                   | None -> SAtom ('n'::('o'::('n'::('e'::[]))))) :: [])))
+               | None -> bad_input)
+            | None -> bad_input)
+         | _ :: _ -> bad_input)))
+
+type backend =
+| BeAtlas
+| BeCmsAod
+| BeCmsMiniaod
+
+(** val prefix_of : backend -> char list **)
+
+let prefix_of = function
+| BeAtlas ->
+  'a'::('t'::('l'::('a'::('s'::('_'::('x'::('a'::('o'::('d'::[])))))))))
+| BeCmsAod -> 'c'::('m'::('s'::('_'::('a'::('o'::('d'::[]))))))
+| BeCmsMiniaod ->
+  'c'::('m'::('s'::('_'::('m'::('i'::('n'::('i'::('a'::('o'::('d'::[]))))))))))
+
+type colrep =
+| KVal of char list * char list option
+| KSeq of colrep
+| KColl of char list
+| KStruct of bool
+
+type rowshape =
+| RDict of (char list * colrep) list
+| RTuple of colrep list
+| RSingle of colrep
+
+type names_arg =
+| NList of char list list
+| NStr of char list
+
+type terminal =
+| TImplicit
+| TExplicit of names_arg * char list
+
+(** val unique_name : char list -> bool -> nat -> char list **)
+
+let unique_name name is_class_var index =
+  append (if is_class_var then '_'::[] else []) (append name (dec_nat index))
+
+(** val vector_of : char list -> char list **)
+
+let vector_of t =
+  append
+    ('s'::('t'::('d'::(':'::(':'::('v'::('e'::('c'::('t'::('o'::('r'::('<'::[]))))))))))))
+    (append t ('>'::[]))
+
+(** val cpp_type_of : colrep -> char list result **)
+
+let rec cpp_type_of = function
+| KVal (ty, _) -> OK ty
+| KSeq i ->
+  (match cpp_type_of i with
+   | OK t -> OK (vector_of t)
+   | Error e -> Error e)
+| KColl ty -> OK ty
+| KStruct _ -> Error ErrAttr
+
+(** val tree_type_of : colrep -> char list result **)
+
+let tree_type_of r = match r with
+| KVal (_, tree_ty) ->
+  (match tree_ty with
+   | Some t -> OK t
+   | None -> cpp_type_of r)
+| _ -> cpp_type_of r
+
+(** val get_ttree_type : colrep -> char list result **)
+
+let get_ttree_type r = match r with
+| KSeq inner ->
+  (match inner with
+   | KStruct _ -> Error ErrRuntime
+   | _ ->
+     (match tree_type_of inner with
+      | OK t -> OK (vector_of t)
+      | Error e -> Error e))
+| KStruct top -> if top then Error ErrValue else Error ErrAttr
+| _ -> tree_type_of r
+
+(** val rep_is_collection : colrep -> bool **)
+
+let rep_is_collection = function
+| KVal (_, _) -> false
+| KStruct _ -> false
+| _ -> true
+
+(** val extract_column_names : names_arg -> char list list **)
+
+let extract_column_names = function
+| NList l -> l
+| NStr s -> s :: []
+
+(** val default_names_from : nat -> nat -> char list list **)
+
+let rec default_names_from i = function
+| O -> []
+| S k ->
+  (append ('c'::('o'::('l'::[]))) (dec_nat i)) :: (default_names_from (S i) k)
+
+(** val default_names : nat -> char list list **)
+
+let default_names n0 =
+  default_names_from O n0
+
+type ttree_call = { tc_names : names_arg; tc_tree : char list;
+                    tc_cols : colrep list }
+
+(** val row_columns_explicit : rowshape -> colrep list **)
+
+let row_columns_explicit = function
+| RDict _ -> (KStruct false) :: []
+| RTuple cols -> cols
+| RSingle c -> c :: []
+
+(** val get_as_ROOT : backend -> terminal -> rowshape -> ttree_call result **)
+
+let get_as_ROOT b t r =
+  match t with
+  | TImplicit ->
+    let tree = append (prefix_of b) ('_'::('t'::('r'::('e'::('e'::[]))))) in
+    (match r with
+     | RDict items ->
+       OK { tc_names = (NList (map fst items)); tc_tree = tree; tc_cols =
+         (map snd items) }
+     | RTuple cols ->
+       OK { tc_names = (NList (default_names (length cols))); tc_tree = tree;
+         tc_cols = cols }
+     | RSingle c ->
+       (match c with
+        | KStruct _ -> Error ErrValue
+        | x ->
+          OK { tc_names = (NStr ('c'::('o'::('l'::('1'::[]))))); tc_tree =
+            tree; tc_cols = (x :: []) }))
+  | TExplicit (names, tree) ->
+    OK { tc_names = names; tc_tree = tree; tc_cols =
+      (row_columns_explicit r) }
+
+type column = { c_name : char list; c_var : char list; c_type : char list;
+                c_is_vec : bool }
+
+type schema = { sc_tree : char list; sc_columns : column list;
+                sc_class_decl : char list list; sc_book : char list list;
+                sc_fill : char list; sc_clears : char list list;
+                sc_descr : (char list * char list); sc_next_index : nat }
+
+(** val make_columns :
+    char list list -> colrep list -> nat -> column list result **)
+
+let rec make_columns names cols index =
+  match names with
+  | [] -> OK []
+  | n0 :: ns ->
+    (match cols with
+     | [] -> OK []
+     | c :: cs ->
+       (match get_ttree_type c with
+        | OK t ->
+          (match make_columns ns cs (S index) with
+           | OK r ->
+             OK ({ c_name = n0; c_var = (unique_name n0 true index); c_type =
+               t; c_is_vec = (rep_is_collection c) } :: r)
+           | Error e -> Error e)
+        | Error e -> Error e))
+
+(** val fill_assert : colrep list -> unit result **)
+
+let rec fill_assert = function
+| [] -> OK ()
+| c :: r -> (match c with
+             | KColl _ -> Error ErrAssert
+             | _ -> fill_assert r)
+
+(** val class_declaration_code : column list -> char list list **)
+
+let class_declaration_code cs =
+  map (fun c ->
+    append c.c_type (append (' '::[]) (append c.c_var (';'::[])))) cs
+
+(** val branch_line : column -> char list **)
+
+let branch_line c =
+  append
+    ('m'::('y'::('T'::('r'::('e'::('e'::('-'::('>'::('B'::('r'::('a'::('n'::('c'::('h'::('('::('"'::[]))))))))))))))))
+    (append c.c_name
+      (append ('"'::(','::(' '::('&'::[]))))
+        (append c.c_var (')'::(';'::[])))))
+
+(** val book_emit : backend -> char list -> column list -> char list list **)
+
+let book_emit b tree cs =
+  app
+    (match b with
+     | BeAtlas ->
+       (append
+         ('A'::('N'::('A'::('_'::('C'::('H'::('E'::('C'::('K'::(' '::('('::('b'::('o'::('o'::('k'::(' '::('('::('T'::('T'::('r'::('e'::('e'::(' '::('('::('"'::[])))))))))))))))))))))))))
+         (append tree
+           ('"'::(','::(' '::('"'::('M'::('y'::(' '::('a'::('n'::('a'::('l'::('y'::('s'::('i'::('s'::(' '::('n'::('t'::('u'::('p'::('l'::('e'::('"'::(')'::(')'::(')'::(';'::[]))))))))))))))))))))))))))))) :: (
+         (append
+           ('a'::('u'::('t'::('o'::(' '::('m'::('y'::('T'::('r'::('e'::('e'::(' '::('='::(' '::('t'::('r'::('e'::('e'::(' '::('('::('"'::[])))))))))))))))))))))
+           (append tree ('"'::(')'::(';'::[]))))) :: [])
+     | _ ->
+       ('e'::('d'::('m'::(':'::(':'::('S'::('e'::('r'::('v'::('i'::('c'::('e'::('<'::('T'::('F'::('i'::('l'::('e'::('S'::('e'::('r'::('v'::('i'::('c'::('e'::('>'::(' '::('f'::('s'::(';'::[])))))))))))))))))))))))))))))) :: (
+         (append
+           ('m'::('y'::('T'::('r'::('e'::('e'::(' '::('='::(' '::('f'::('s'::('-'::('>'::('m'::('a'::('k'::('e'::('<'::('T'::('T'::('r'::('e'::('e'::('>'::('('::('"'::[]))))))))))))))))))))))))))
+           (append tree
+             ('"'::(','::(' '::('"'::('M'::('y'::(' '::('a'::('n'::('a'::('l'::('y'::('s'::('i'::('s'::(' '::('n'::('t'::('u'::('p'::('l'::('e'::('"'::(')'::(';'::[]))))))))))))))))))))))))))) :: []))
+    (map branch_line cs)
+
+(** val fill_emit : backend -> char list -> char list **)
+
+let fill_emit b tree =
+  match b with
+  | BeAtlas ->
+    append ('t'::('r'::('e'::('e'::('('::('"'::[]))))))
+      (append tree
+        ('"'::(')'::('-'::('>'::('F'::('i'::('l'::('l'::('('::(')'::(';'::[]))))))))))))
+  | _ ->
+    'm'::('y'::('T'::('r'::('e'::('e'::('-'::('>'::('F'::('i'::('l'::('l'::('('::(')'::(';'::[]))))))))))))))
+
+(** val descriptor_file : char list **)
+
+let descriptor_file =
+  'A'::('N'::('A'::('L'::('Y'::('S'::('I'::('S'::('.'::('r'::('o'::('o'::('t'::[]))))))))))))
+
+(** val call_ResultTTree : backend -> nat -> ttree_call -> schema result **)
+
+let call_ResultTTree b index tc =
+  let names = extract_column_names tc.tc_names in
+  let cols = tc.tc_cols in
+  if negb (Nat.eqb (length cols) (length names))
+  then Error ErrRuntime
+  else (match make_columns names cols index with
+        | OK cs ->
+          (match fill_assert cols with
+           | OK _ ->
+             OK { sc_tree = tc.tc_tree; sc_columns = cs; sc_class_decl =
+               (class_declaration_code cs); sc_book =
+               (book_emit b tc.tc_tree cs); sc_fill =
+               (fill_emit b tc.tc_tree); sc_clears =
+               (map (fun c ->
+                 append c.c_var
+                   ('.'::('c'::('l'::('e'::('a'::('r'::('('::(')'::(';'::[]))))))))))
+                 (filter (fun c -> c.c_is_vec) cs)); sc_descr =
+               (descriptor_file, tc.tc_tree); sc_next_index = (S
+               (add index (length cs))) }
+           | Error e -> Error e)
+        | Error e -> Error e)
+
+(** val translate_terminal :
+    backend -> nat -> terminal -> rowshape -> schema result **)
+
+let translate_terminal b index t r =
+  match get_as_ROOT b t r with
+  | OK tc -> call_ResultTTree b index tc
+  | Error e -> Error e
+
+(** val expected_names : terminal -> rowshape -> char list list **)
+
+let expected_names t r =
+  match t with
+  | TImplicit ->
+    (match r with
+     | RDict items -> map fst items
+     | RTuple cols -> default_names (length cols)
+     | RSingle _ -> ('c'::('o'::('l'::('1'::[])))) :: [])
+  | TExplicit (names, _) -> extract_column_names names
+
+(** val expected_tree : backend -> terminal -> char list **)
+
+let expected_tree b = function
+| TImplicit -> append (prefix_of b) ('_'::('t'::('r'::('e'::('e'::[])))))
+| TExplicit (_, tree) -> tree
+
+(** val d_backend : sexp -> backend option **)
+
+let d_backend = function
+| SAtom s0 ->
+  (match s0 with
+   | [] -> None
+   | a::s1 ->
+     (* If this appears, you're using Ascii internals. Please don't *)
+ (fun f c ->
+  let n = Char.code c in
+  let h i = (n land (1 lsl i)) <> 0 in
+  f (h 0) (h 1) (h 2) (h 3) (h 4) (h 5) (h 6) (h 7))
+       (fun b b0 b1 b2 b3 b4 b5 b6 ->
+       if b
+       then if b0
+            then if b1
+                 then None
+                 else if b2
+                      then None
+                      else if b3
+                           then None
+                           else if b4
+                                then if b5
+                                     then if b6
+                                          then None
+                                          else (match s1 with
+                                                | [] -> None
+                                                | a0::s2 ->
+                                                  (* If this appears, you're using Ascii internals. Please don't *)
+ (fun f c ->
+  let n = Char.code c in
+  let h i = (n land (1 lsl i)) <> 0 in
+  f (h 0) (h 1) (h 2) (h 3) (h 4) (h 5) (h 6) (h 7))
+                                                    (fun b7 b8 b9 b10 b11 b12 b13 b14 ->
+                                                    if b7
+                                                    then if b8
+                                                         then None
+                                                         else if b9
+                                                              then if b10
+                                                                   then 
+                                                                    if b11
+                                                                    then None
+                                                                    else 
+                                                                    if b12
+                                                                    then 
+                                                                    if b13
+                                                                    then 
+                                                                    if b14
+                                                                    then None
+                                                                    else 
+                                                                    (match s2 with
+                                                                    | [] ->
+                                                                    None
+                                                                    | a1::s3 ->
+                                                                    (* If this appears, you're using Ascii internals. Please don't *)
+ (fun f c ->
+  let n = Char.code c in
+  let h i = (n land (1 lsl i)) <> 0 in
+  f (h 0) (h 1) (h 2) (h 3) (h 4) (h 5) (h 6) (h 7))
+                                                                    (fun b15 b16 b17 b18 b19 b20 b21 b22 ->
+                                                                    if b15
+                                                                    then 
+                                                                    if b16
+                                                                    then 
+                                                                    if b17
+                                                                    then None
+                                                                    else 
+                                                                    if b18
+                                                                    then None
+                                                                    else 
+                                                                    if b19
+                                                                    then 
+                                                                    if b20
+                                                                    then 
+                                                                    if b21
+                                                                    then 
+                                                                    if b22
+                                                                    then None
+                                                                    else 
+                                                                    (match s3 with
+                                                                    | [] ->
+                                                                    None
+                                                                    | a2::s4 ->
+                                                                    (* If this appears, you're using Ascii internals. Please don't *)
+ (fun f c ->
+  let n = Char.code c in
+  let h i = (n land (1 lsl i)) <> 0 in
+  f (h 0) (h 1) (h 2) (h 3) (h 4) (h 5) (h 6) (h 7))
+                                                                    (fun b23 b24 b25 b26 b27 b28 b29 b30 ->
+                                                                    if b23
+                                                                    then 
+                                                                    if b24
+                                                                    then 
+                                                                    if b25
+                                                                    then 
+                                                                    if b26
+                                                                    then 
+                                                                    if b27
+                                                                    then 
+                                                                    if b28
+                                                                    then None
+                                                                    else 
+                                                                    if b29
+                                                                    then 
+                                                                    if b30
+                                                                    then None
+                                                                    else 
+                                                                    (match s4 with
+                                                                    | [] ->
+                                                                    None
+                                                                    | a3::s5 ->
+                                                                    (* If this appears, you're using Ascii internals. Please don't *)
+ (fun f c ->
+  let n = Char.code c in
+  let h i = (n land (1 lsl i)) <> 0 in
+  f (h 0) (h 1) (h 2) (h 3) (h 4) (h 5) (h 6) (h 7))
+                                                                    (fun b31 b32 b33 b34 b35 b36 b37 b38 ->
+                                                                    if b31
+                                                                    then 
+                                                                    if b32
+                                                                    then None
+                                                                    else 
+                                                                    if b33
+                                                                    then 
+                                                                    if b34
+                                                                    then 
+                                                                    if b35
+                                                                    then None
+                                                                    else 
+                                                                    if b36
+                                                                    then 
+                                                                    if b37
+                                                                    then 
+                                                                    if b38
+                                                                    then None
+                                                                    else 
+                                                                    (match s5 with
+                                                                    | [] ->
+                                                                    None
+                                                                    | a4::s6 ->
+                                                                    (* If this appears, you're using Ascii internals. Please don't *)
+ (fun f c ->
+  let n = Char.code c in
+  let h i = (n land (1 lsl i)) <> 0 in
+  f (h 0) (h 1) (h 2) (h 3) (h 4) (h 5) (h 6) (h 7))
+                                                                    (fun b39 b40 b41 b42 b43 b44 b45 b46 ->
+                                                                    if b39
+                                                                    then 
+                                                                    if b40
+                                                                    then None
+                                                                    else 
+                                                                    if b41
+                                                                    then None
+                                                                    else 
+                                                                    if b42
+                                                                    then 
+                                                                    if b43
+                                                                    then None
+                                                                    else 
+                                                                    if b44
+                                                                    then 
+                                                                    if b45
+                                                                    then 
+                                                                    if b46
+                                                                    then None
+                                                                    else 
+                                                                    (match s6 with
+                                                                    | [] ->
+                                                                    None
+                                                                    | a5::s7 ->
+                                                                    (* If this appears, you're using Ascii internals. Please don't *)
+ (fun f c ->
+  let n = Char.code c in
+  let h i = (n land (1 lsl i)) <> 0 in
+  f (h 0) (h 1) (h 2) (h 3) (h 4) (h 5) (h 6) (h 7))
+                                                                    (fun b47 b48 b49 b50 b51 b52 b53 b54 ->
+                                                                    if b47
+                                                                    then None
+                                                                    else 
+                                                                    if b48
+                                                                    then 
+                                                                    if b49
+                                                                    then 
+                                                                    if b50
+                                                                    then 
+                                                                    if b51
+                                                                    then None
+                                                                    else 
+                                                                    if b52
+                                                                    then 
+                                                                    if b53
+                                                                    then 
+                                                                    if b54
+                                                                    then None
+                                                                    else 
+                                                                    (match s7 with
+                                                                    | [] ->
+                                                                    None
+                                                                    | a6::s8 ->
+                                                                    (* If this appears, you're using Ascii internals. Please don't *)
+ (fun f c ->
+  let n = Char.code c in
+  let h i = (n land (1 lsl i)) <> 0 in
+  f (h 0) (h 1) (h 2) (h 3) (h 4) (h 5) (h 6) (h 7))
+                                                                    (fun b55 b56 b57 b58 b59 b60 b61 b62 ->
+                                                                    if b55
+                                                                    then 
+                                                                    if b56
+                                                                    then None
+                                                                    else 
+                                                                    if b57
+                                                                    then None
+                                                                    else 
+                                                                    if b58
+                                                                    then 
+                                                                    if b59
+                                                                    then None
+                                                                    else 
+                                                                    if b60
+                                                                    then 
+                                                                    if b61
+                                                                    then 
+                                                                    if b62
+                                                                    then None
+                                                                    else 
+                                                                    (match s8 with
+                                                                    | [] ->
+                                                                    None
+                                                                    | a7::s9 ->
+                                                                    (* If this appears, you're using Ascii internals. Please don't *)
+ (fun f c ->
+  let n = Char.code c in
+  let h i = (n land (1 lsl i)) <> 0 in
+  f (h 0) (h 1) (h 2) (h 3) (h 4) (h 5) (h 6) (h 7))
+                                                                    (fun b63 b64 b65 b66 b67 b68 b69 b70 ->
+                                                                    if b63
+                                                                    then 
+                                                                    if b64
+                                                                    then None
+                                                                    else 
+                                                                    if b65
+                                                                    then None
+                                                                    else 
+                                                                    if b66
+                                                                    then None
+                                                                    else 
+                                                                    if b67
+                                                                    then None
+                                                                    else 
+                                                                    if b68
+                                                                    then 
+                                                                    if b69
+                                                                    then 
+                                                                    if b70
+                                                                    then None
+                                                                    else 
+                                                                    (match s9 with
+                                                                    | [] ->
+                                                                    None
+                                                                    | a8::s10 ->
+                                                                    (* If this appears, you're using Ascii internals. Please don't *)
+ (fun f c ->
+  let n = Char.code c in
+  let h i = (n land (1 lsl i)) <> 0 in
+  f (h 0) (h 1) (h 2) (h 3) (h 4) (h 5) (h 6) (h 7))
+                                                                    (fun b71 b72 b73 b74 b75 b76 b77 b78 ->
+                                                                    if b71
+                                                                    then 
+                                                                    if b72
+                                                                    then 
+                                                                    if b73
+                                                                    then 
+                                                                    if b74
+                                                                    then 
+                                                                    if b75
+                                                                    then None
+                                                                    else 
+                                                                    if b76
+                                                                    then 
+                                                                    if b77
+                                                                    then 
+                                                                    if b78
+                                                                    then None
+                                                                    else 
+                                                                    (match s10 with
+                                                                    | [] ->
+                                                                    None
+                                                                    | a9::s11 ->
+                                                                    (* If this appears, you're using Ascii internals. Please don't *)
+ (fun f c ->
+  let n = Char.code c in
+  let h i = (n land (1 lsl i)) <> 0 in
+  f (h 0) (h 1) (h 2) (h 3) (h 4) (h 5) (h 6) (h 7))
+                                                                    (fun b79 b80 b81 b82 b83 b84 b85 b86 ->
+                                                                    if b79
+                                                                    then None
+                                                                    else 
+                                                                    if b80
+                                                                    then None
+                                                                    else 
+                                                                    if b81
+                                                                    then 
+                                                                    if b82
+                                                                    then None
+                                                                    else 
+                                                                    if b83
+                                                                    then None
+                                                                    else 
+                                                                    if b84
+                                                                    then 
+                                                                    if b85
+                                                                    then 
+                                                                    if b86
+                                                                    then None
+                                                                    else 
+                                                                    (match s11 with
+                                                                    | [] ->
+                                                                    Some
+                                                                    BeCmsMiniaod
+                                                                    | _::_ ->
+                                                                    None)
+                                                                    else None
+                                                                    else None
+                                                                    else None)
+                                                                    a9)
+                                                                    else None
+                                                                    else None
+                                                                    else None
+                                                                    else None
+                                                                    else None
+                                                                    else None)
+                                                                    a8)
+                                                                    else None
+                                                                    else None
+                                                                    else None)
+                                                                    a7)
+                                                                    else None
+                                                                    else None
+                                                                    else None
+                                                                    else None)
+                                                                    a6)
+                                                                    else None
+                                                                    else None
+                                                                    else None
+                                                                    else None
+                                                                    else None)
+                                                                    a5)
+                                                                    else None
+                                                                    else None
+                                                                    else None
+                                                                    else None)
+                                                                    a4)
+                                                                    else None
+                                                                    else None
+                                                                    else None
+                                                                    else 
+                                                                    if b34
+                                                                    then None
+                                                                    else 
+                                                                    if b35
+                                                                    then None
+                                                                    else 
+                                                                    if b36
+                                                                    then 
+                                                                    if b37
+                                                                    then 
+                                                                    if b38
+                                                                    then None
+                                                                    else 
+                                                                    (match s5 with
+                                                                    | [] ->
+                                                                    None
+                                                                    | a4::s6 ->
+                                                                    (* If this appears, you're using Ascii internals. Please don't *)
+ (fun f c ->
+  let n = Char.code c in
+  let h i = (n land (1 lsl i)) <> 0 in
+  f (h 0) (h 1) (h 2) (h 3) (h 4) (h 5) (h 6) (h 7))
+                                                                    (fun b39 b40 b41 b42 b43 b44 b45 b46 ->
+                                                                    if b39
+                                                                    then 
+                                                                    if b40
+                                                                    then 
+                                                                    if b41
+                                                                    then 
+                                                                    if b42
+                                                                    then 
+                                                                    if b43
+                                                                    then None
+                                                                    else 
+                                                                    if b44
+                                                                    then 
+                                                                    if b45
+                                                                    then 
+                                                                    if b46
+                                                                    then None
+                                                                    else 
+                                                                    (match s6 with
+                                                                    | [] ->
+                                                                    None
+                                                                    | a5::s7 ->
+                                                                    (* If this appears, you're using Ascii internals. Please don't *)
+ (fun f c ->
+  let n = Char.code c in
+  let h i = (n land (1 lsl i)) <> 0 in
+  f (h 0) (h 1) (h 2) (h 3) (h 4) (h 5) (h 6) (h 7))
+                                                                    (fun b47 b48 b49 b50 b51 b52 b53 b54 ->
+                                                                    if b47
+                                                                    then None
+                                                                    else 
+                                                                    if b48
+                                                                    then None
+                                                                    else 
+                                                                    if b49
+                                                                    then 
+                                                                    if b50
+                                                                    then None
+                                                                    else 
+                                                                    if b51
+                                                                    then None
+                                                                    else 
+                                                                    if b52
+                                                                    then 
+                                                                    if b53
+                                                                    then 
+                                                                    if b54
+                                                                    then None
+                                                                    else 
+                                                                    (match s7 with
+                                                                    | [] ->
+                                                                    Some
+                                                                    BeCmsAod
+                                                                    | _::_ ->
+                                                                    None)
+                                                                    else None
+                                                                    else None
+                                                                    else None)
+                                                                    a5)
+                                                                    else None
+                                                                    else None
+                                                                    else None
+                                                                    else None
+                                                                    else None
+                                                                    else None)
+                                                                    a4)
+                                                                    else None
+                                                                    else None
+                                                                    else None)
+                                                                    a3)
+                                                                    else None
+                                                                    else None
+                                                                    else None
+                                                                    else None
+                                                                    else None
+                                                                    else None)
+                                                                    a2)
+                                                                    else None
+                                                                    else None
+                                                                    else None
+                                                                    else None
+                                                                    else None)
+                                                                    a1)
+                                                                    else None
+                                                                    else None
+                                                                   else None
+                                                              else None
+                                                    else None)
+                                                    a0)
+                                     else None
+                                else None
+            else if b1
+                 then None
+                 else if b2
+                      then None
+                      else if b3
+                           then None
+                           else if b4
+                                then if b5
+                                     then if b6
+                                          then None
+                                          else (match s1 with
+                                                | [] -> None
+                                                | a0::s2 ->
+                                                  (* If this appears, you're using Ascii internals. Please don't *)
+ (fun f c ->
+  let n = Char.code c in
+  let h i = (n land (1 lsl i)) <> 0 in
+  f (h 0) (h 1) (h 2) (h 3) (h 4) (h 5) (h 6) (h 7))
+                                                    (fun b7 b8 b9 b10 b11 b12 b13 b14 ->
+                                                    if b7
+                                                    then None
+                                                    else if b8
+                                                         then None
+                                                         else if b9
+                                                              then if b10
+                                                                   then None
+                                                                   else 
+                                                                    if b11
+                                                                    then 
+                                                                    if b12
+                                                                    then 
+                                                                    if b13
+                                                                    then 
+                                                                    if b14
+                                                                    then None
+                                                                    else 
+                                                                    (match s2 with
+                                                                    | [] ->
+                                                                    None
+                                                                    | a1::s3 ->
+                                                                    (* If this appears, you're using Ascii internals. Please don't *)
+ (fun f c ->
+  let n = Char.code c in
+  let h i = (n land (1 lsl i)) <> 0 in
+  f (h 0) (h 1) (h 2) (h 3) (h 4) (h 5) (h 6) (h 7))
+                                                                    (fun b15 b16 b17 b18 b19 b20 b21 b22 ->
+                                                                    if b15
+                                                                    then None
+                                                                    else 
+                                                                    if b16
+                                                                    then None
+                                                                    else 
+                                                                    if b17
+                                                                    then 
+                                                                    if b18
+                                                                    then 
+                                                                    if b19
+                                                                    then None
+                                                                    else 
+                                                                    if b20
+                                                                    then 
+                                                                    if b21
+                                                                    then 
+                                                                    if b22
+                                                                    then None
+                                                                    else 
+                                                                    (match s3 with
+                                                                    | [] ->
+                                                                    None
+                                                                    | a2::s4 ->
+                                                                    (* If this appears, you're using Ascii internals. Please don't *)
+ (fun f c ->
+  let n = Char.code c in
+  let h i = (n land (1 lsl i)) <> 0 in
+  f (h 0) (h 1) (h 2) (h 3) (h 4) (h 5) (h 6) (h 7))
+                                                                    (fun b23 b24 b25 b26 b27 b28 b29 b30 ->
+                                                                    if b23
+                                                                    then 
+                                                                    if b24
+                                                                    then None
+                                                                    else 
+                                                                    if b25
+                                                                    then None
+                                                                    else 
+                                                                    if b26
+                                                                    then None
+                                                                    else 
+                                                                    if b27
+                                                                    then None
+                                                                    else 
+                                                                    if b28
+                                                                    then 
+                                                                    if b29
+                                                                    then 
+                                                                    if b30
+                                                                    then None
+                                                                    else 
+                                                                    (match s4 with
+                                                                    | [] ->
+                                                                    None
+                                                                    | a3::s5 ->
+                                                                    (* If this appears, you're using Ascii internals. Please don't *)
+ (fun f c ->
+  let n = Char.code c in
+  let h i = (n land (1 lsl i)) <> 0 in
+  f (h 0) (h 1) (h 2) (h 3) (h 4) (h 5) (h 6) (h 7))
+                                                                    (fun b31 b32 b33 b34 b35 b36 b37 b38 ->
+                                                                    if b31
+                                                                    then 
+                                                                    if b32
+                                                                    then 
+                                                                    if b33
+                                                                    then None
+                                                                    else 
+                                                                    if b34
+                                                                    then None
+                                                                    else 
+                                                                    if b35
+                                                                    then 
+                                                                    if b36
+                                                                    then 
+                                                                    if b37
+                                                                    then 
+                                                                    if b38
+                                                                    then None
+                                                                    else 
+                                                                    (match s5 with
+                                                                    | [] ->
+                                                                    Some
+                                                                    BeAtlas
+                                                                    | _::_ ->
+                                                                    None)
+                                                                    else None
+                                                                    else None
+                                                                    else None
+                                                                    else None
+                                                                    else None)
+                                                                    a3)
+                                                                    else None
+                                                                    else None
+                                                                    else None)
+                                                                    a2)
+                                                                    else None
+                                                                    else None
+                                                                    else None
+                                                                    else None)
+                                                                    a1)
+                                                                    else None
+                                                                    else None
+                                                                    else None
+                                                              else None)
+                                                    a0)
+                                     else None
+                                else None
+       else None)
+       a)
+| SList _ -> None
+
+(** val d_colrep_fuel : nat -> sexp -> colrep option **)
+
+let rec d_colrep_fuel fuel s =
+  match fuel with
+  | O -> None
+  | S f ->
+    (match s with
+     | SAtom _ -> None
+     | SList l ->
+       (match l with
+        | [] -> None
+        | s0 :: l0 ->
+          (match s0 with
+           | SAtom s1 ->
+             (match s1 with
+              | [] -> None
+              | a::s2 ->
+                (* If this appears, you're using Ascii internals. Please don't *)
+ (fun f c ->
+  let n = Char.code c in
+  let h i = (n land (1 lsl i)) <> 0 in
+  f (h 0) (h 1) (h 2) (h 3) (h 4) (h 5) (h 6) (h 7))
+                  (fun b0 b1 b2 b3 b4 b5 b6 b7 ->
+                  if b0
+                  then if b1
+                       then if b2
+                            then None
+                            else if b3
+                                 then None
+                                 else if b4
+                                      then if b5
+                                           then if b6
+                                                then if b7
+                                                     then None
+                                                     else (match s2 with
+                                                           | [] -> None
+                                                           | a0::s3 ->
+                                                             (* If this appears, you're using Ascii internals. Please don't *)
+ (fun f c ->
+  let n = Char.code c in
+  let h i = (n land (1 lsl i)) <> 0 in
+  f (h 0) (h 1) (h 2) (h 3) (h 4) (h 5) (h 6) (h 7))
+                                                               (fun b8 b9 b10 b11 b12 b13 b14 b15 ->
+                                                               if b8
+                                                               then if b9
+                                                                    then None
+                                                                    else 
+                                                                    if b10
+                                                                    then 
+                                                                    if b11
+                                                                    then None
+                                                                    else 
+                                                                    if b12
+                                                                    then None
+                                                                    else 
+                                                                    if b13
+                                                                    then 
+                                                                    if b14
+                                                                    then 
+                                                                    if b15
+                                                                    then None
+                                                                    else 
+                                                                    (match s3 with
+                                                                    | [] ->
+                                                                    None
+                                                                    | a1::s4 ->
+                                                                    (* If this appears, you're using Ascii internals. Please don't *)
+ (fun f c ->
+  let n = Char.code c in
+  let h i = (n land (1 lsl i)) <> 0 in
+  f (h 0) (h 1) (h 2) (h 3) (h 4) (h 5) (h 6) (h 7))
+                                                                    (fun b b16 b17 b18 b19 b20 b21 b22 ->
+                                                                    if b
+                                                                    then 
+                                                                    if b16
+                                                                    then None
+                                                                    else 
+                                                                    if b17
+                                                                    then None
+                                                                    else 
+                                                                    if b18
+                                                                    then None
+                                                                    else 
+                                                                    if b19
+                                                                    then 
+                                                                    if b20
+                                                                    then 
+                                                                    if b21
+                                                                    then 
+                                                                    if b22
+                                                                    then None
+                                                                    else 
+                                                                    (match s4 with
+                                                                    | [] ->
+                                                                    (match l0 with
+                                                                    | [] ->
+                                                                    None
+                                                                    | i :: l1 ->
+                                                                    (match l1 with
+                                                                    | [] ->
+                                                                    option_map
+                                                                    (fun x ->
+                                                                    KSeq x)
+                                                                    (d_colrep_fuel
+                                                                    f i)
+                                                                    | _ :: _ ->
+                                                                    None))
+                                                                    | _::_ ->
+                                                                    None)
+                                                                    else None
+                                                                    else None
+                                                                    else None
+                                                                    else None)
+                                                                    a1)
+                                                                    else None
+                                                                    else None
+                                                                    else None
+                                                               else if b9
+                                                                    then None
+                                                                    else 
+                                                                    if b10
+                                                                    then 
+                                                                    if b11
+                                                                    then None
+                                                                    else 
+                                                                    if b12
+                                                                    then 
+                                                                    if b13
+                                                                    then 
+                                                                    if b14
+                                                                    then 
+                                                                    if b15
+                                                                    then None
+                                                                    else 
+                                                                    (match s3 with
+                                                                    | [] ->
+                                                                    None
+                                                                    | a1::s4 ->
+                                                                    (* If this appears, you're using Ascii internals. Please don't *)
+ (fun f c ->
+  let n = Char.code c in
+  let h i = (n land (1 lsl i)) <> 0 in
+  f (h 0) (h 1) (h 2) (h 3) (h 4) (h 5) (h 6) (h 7))
+                                                                    (fun b16 b17 b18 b19 b20 b21 b22 b23 ->
+                                                                    if b16
+                                                                    then None
+                                                                    else 
+                                                                    if b17
+                                                                    then 
+                                                                    if b18
+                                                                    then None
+                                                                    else 
+                                                                    if b19
+                                                                    then None
+                                                                    else 
+                                                                    if b20
+                                                                    then 
+                                                                    if b21
+                                                                    then 
+                                                                    if b22
+                                                                    then 
+                                                                    if b23
+                                                                    then None
+                                                                    else 
+                                                                    (match s4 with
+                                                                    | [] ->
+                                                                    None
+                                                                    | a2::s5 ->
+                                                                    (* If this appears, you're using Ascii internals. Please don't *)
+ (fun f c ->
+  let n = Char.code c in
+  let h i = (n land (1 lsl i)) <> 0 in
+  f (h 0) (h 1) (h 2) (h 3) (h 4) (h 5) (h 6) (h 7))
+                                                                    (fun b24 b25 b26 b27 b28 b29 b30 b31 ->
+                                                                    if b24
+                                                                    then 
+                                                                    if b25
+                                                                    then None
+                                                                    else 
+                                                                    if b26
+                                                                    then 
+                                                                    if b27
+                                                                    then None
+                                                                    else 
+                                                                    if b28
+                                                                    then 
+                                                                    if b29
+                                                                    then 
+                                                                    if b30
+                                                                    then 
+                                                                    if b31
+                                                                    then None
+                                                                    else 
+                                                                    (match s5 with
+                                                                    | [] ->
+                                                                    None
+                                                                    | a3::s6 ->
+                                                                    (* If this appears, you're using Ascii internals. Please don't *)
+ (fun f c ->
+  let n = Char.code c in
+  let h i = (n land (1 lsl i)) <> 0 in
+  f (h 0) (h 1) (h 2) (h 3) (h 4) (h 5) (h 6) (h 7))
+                                                                    (fun b32 b33 b34 b35 b36 b37 b38 b39 ->
+                                                                    if b32
+                                                                    then 
+                                                                    if b33
+                                                                    then 
+                                                                    if b34
+                                                                    then None
+                                                                    else 
+                                                                    if b35
+                                                                    then None
+                                                                    else 
+                                                                    if b36
+                                                                    then None
+                                                                    else 
+                                                                    if b37
+                                                                    then 
+                                                                    if b38
+                                                                    then 
+                                                                    if b39
+                                                                    then None
+                                                                    else 
+                                                                    (match s6 with
+                                                                    | [] ->
+                                                                    None
+                                                                    | a4::s7 ->
+                                                                    (* If this appears, you're using Ascii internals. Please don't *)
+ (fun f c ->
+  let n = Char.code c in
+  let h i = (n land (1 lsl i)) <> 0 in
+  f (h 0) (h 1) (h 2) (h 3) (h 4) (h 5) (h 6) (h 7))
+                                                                    (fun b40 b41 b42 b43 b44 b45 b46 b47 ->
+                                                                    if b40
+                                                                    then None
+                                                                    else 
+                                                                    if b41
+                                                                    then None
+                                                                    else 
+                                                                    if b42
+                                                                    then 
+                                                                    if b43
+                                                                    then None
+                                                                    else 
+                                                                    if b44
+                                                                    then 
+                                                                    if b45
+                                                                    then 
+                                                                    if b46
+                                                                    then 
+                                                                    if b47
+                                                                    then None
+                                                                    else 
+                                                                    (match s7 with
+                                                                    | [] ->
+                                                                    (match l0 with
+                                                                    | [] ->
+                                                                    None
+                                                                    | b :: l1 ->
+                                                                    (match l1 with
+                                                                    | [] ->
+                                                                    option_map
+                                                                    (fun x ->
+                                                                    KStruct
+                                                                    x)
+                                                                    (d_bool b)
+                                                                    | _ :: _ ->
+                                                                    None))
+                                                                    | _::_ ->
+                                                                    None)
+                                                                    else None
+                                                                    else None
+                                                                    else None
+                                                                    else None)
+                                                                    a4)
+                                                                    else None
+                                                                    else None
+                                                                    else None
+                                                                    else None)
+                                                                    a3)
+                                                                    else None
+                                                                    else None
+                                                                    else None
+                                                                    else None
+                                                                    else None)
+                                                                    a2)
+                                                                    else None
+                                                                    else None
+                                                                    else None
+                                                                    else None)
+                                                                    a1)
+                                                                    else None
+                                                                    else None
+                                                                    else None
+                                                                    else None)
+                                                               a0)
+                                                else None
+                                           else None
+                                      else if b5
+                                           then if b6
+                                                then if b7
+                                                     then None
+                                                     else (match s2 with
+                                                           | [] -> None
+                                                           | a0::s3 ->
+                                                             (* If this appears, you're using Ascii internals. Please don't *)
+ (fun f c ->
+  let n = Char.code c in
+  let h i = (n land (1 lsl i)) <> 0 in
+  f (h 0) (h 1) (h 2) (h 3) (h 4) (h 5) (h 6) (h 7))
+                                                               (fun b b8 b9 b10 b11 b12 b13 b14 ->
+                                                               if b
+                                                               then if b8
+                                                                    then 
+                                                                    if b9
+                                                                    then 
+                                                                    if b10
+                                                                    then 
+                                                                    if b11
+                                                                    then None
+                                                                    else 
+                                                                    if b12
+                                                                    then 
+                                                                    if b13
+                                                                    then 
+                                                                    if b14
+                                                                    then None
+                                                                    else 
+                                                                    (match s3 with
+                                                                    | [] ->
+                                                                    None
+                                                                    | a1::s4 ->
+                                                                    (* If this appears, you're using Ascii internals. Please don't *)
+ (fun f c ->
+  let n = Char.code c in
+  let h i = (n land (1 lsl i)) <> 0 in
+  f (h 0) (h 1) (h 2) (h 3) (h 4) (h 5) (h 6) (h 7))
+                                                                    (fun b15 b16 b17 b18 b19 b20 b21 b22 ->
+                                                                    if b15
+                                                                    then None
+                                                                    else 
+                                                                    if b16
+                                                                    then None
+                                                                    else 
+                                                                    if b17
+                                                                    then 
+                                                                    if b18
+                                                                    then 
+                                                                    if b19
+                                                                    then None
+                                                                    else 
+                                                                    if b20
+                                                                    then 
+                                                                    if b21
+                                                                    then 
+                                                                    if b22
+                                                                    then None
+                                                                    else 
+                                                                    (match s4 with
+                                                                    | [] ->
+                                                                    None
+                                                                    | a2::s5 ->
+                                                                    (* If this appears, you're using Ascii internals. Please don't *)
+ (fun f c ->
+  let n = Char.code c in
+  let h i = (n land (1 lsl i)) <> 0 in
+  f (h 0) (h 1) (h 2) (h 3) (h 4) (h 5) (h 6) (h 7))
+                                                                    (fun b23 b24 b25 b26 b27 b28 b29 b30 ->
+                                                                    if b23
+                                                                    then None
+                                                                    else 
+                                                                    if b24
+                                                                    then None
+                                                                    else 
+                                                                    if b25
+                                                                    then 
+                                                                    if b26
+                                                                    then 
+                                                                    if b27
+                                                                    then None
+                                                                    else 
+                                                                    if b28
+                                                                    then 
+                                                                    if b29
+                                                                    then 
+                                                                    if b30
+                                                                    then None
+                                                                    else 
+                                                                    (match s5 with
+                                                                    | [] ->
+                                                                    (match l0 with
+                                                                    | [] ->
+                                                                    None
+                                                                    | s6 :: l1 ->
+                                                                    (match s6 with
+                                                                    | SAtom ty ->
+                                                                    (match l1 with
+                                                                    | [] ->
+                                                                    Some
+                                                                    (KColl ty)
+                                                                    | _ :: _ ->
+                                                                    None)
+                                                                    | SList _ ->
+                                                                    None))
+                                                                    | _::_ ->
+                                                                    None)
+                                                                    else None
+                                                                    else None
+                                                                    else None
+                                                                    else None)
+                                                                    a2)
+                                                                    else None
+                                                                    else None
+                                                                    else None
+                                                                    else None)
+                                                                    a1)
+                                                                    else None
+                                                                    else None
+                                                                    else None
+                                                                    else None
+                                                                    else None
+                                                               else None)
+                                                               a0)
+                                                else None
+                                           else None
+                       else None
+                  else if b1
+                       then if b2
+                            then if b3
+                                 then None
+                                 else if b4
+                                      then if b5
+                                           then if b6
+                                                then if b7
+                                                     then None
+                                                     else (match s2 with
+                                                           | [] -> None
+                                                           | a0::s3 ->
+                                                             (* If this appears, you're using Ascii internals. Please don't *)
+ (fun f c ->
+  let n = Char.code c in
+  let h i = (n land (1 lsl i)) <> 0 in
+  f (h 0) (h 1) (h 2) (h 3) (h 4) (h 5) (h 6) (h 7))
+                                                               (fun b b8 b9 b10 b11 b12 b13 b14 ->
+                                                               if b
+                                                               then if b8
+                                                                    then None
+                                                                    else 
+                                                                    if b9
+                                                                    then None
+                                                                    else 
+                                                                    if b10
+                                                                    then None
+                                                                    else 
+                                                                    if b11
+                                                                    then None
+                                                                    else 
+                                                                    if b12
+                                                                    then 
+                                                                    if b13
+                                                                    then 
+                                                                    if b14
+                                                                    then None
+                                                                    else 
+                                                                    (match s3 with
+                                                                    | [] ->
+                                                                    None
+                                                                    | a1::s4 ->
+                                                                    (* If this appears, you're using Ascii internals. Please don't *)
+ (fun f c ->
+  let n = Char.code c in
+  let h i = (n land (1 lsl i)) <> 0 in
+  f (h 0) (h 1) (h 2) (h 3) (h 4) (h 5) (h 6) (h 7))
+                                                                    (fun b15 b16 b17 b18 b19 b20 b21 b22 ->
+                                                                    if b15
+                                                                    then None
+                                                                    else 
+                                                                    if b16
+                                                                    then None
+                                                                    else 
+                                                                    if b17
+                                                                    then 
+                                                                    if b18
+                                                                    then 
+                                                                    if b19
+                                                                    then None
+                                                                    else 
+                                                                    if b20
+                                                                    then 
+                                                                    if b21
+                                                                    then 
+                                                                    if b22
+                                                                    then None
+                                                                    else 
+                                                                    (match s4 with
+                                                                    | [] ->
+                                                                    (match l0 with
+                                                                    | [] ->
+                                                                    None
+                                                                    | s5 :: l1 ->
+                                                                    (match s5 with
+                                                                    | SAtom ty ->
+                                                                    (match l1 with
+                                                                    | [] ->
+                                                                    None
+                                                                    | s6 :: l2 ->
+                                                                    (match s6 with
+                                                                    | SAtom _ ->
+                                                                    None
+                                                                    | SList l3 ->
+                                                                    (match l3 with
+                                                                    | [] ->
+                                                                    (match l2 with
+                                                                    | [] ->
+                                                                    Some
+                                                                    (KVal
+                                                                    (ty,
+                                                                    None))
+                                                                    | _ :: _ ->
+                                                                    None)
+                                                                    | s7 :: l4 ->
+                                                                    (match s7 with
+                                                                    | SAtom t ->
+                                                                    (match l4 with
+                                                                    | [] ->
+                                                                    (match l2 with
+                                                                    | [] ->
+                                                                    Some
+                                                                    (KVal
+                                                                    (ty,
+                                                                    (Some t)))
+                                                                    | _ :: _ ->
+                                                                    None)
+                                                                    | _ :: _ ->
+                                                                    None)
+                                                                    | SList _ ->
+                                                                    None))))
+                                                                    | SList _ ->
+                                                                    None))
+                                                                    | _::_ ->
+                                                                    None)
+                                                                    else None
+                                                                    else None
+                                                                    else None
+                                                                    else None)
+                                                                    a1)
+                                                                    else None
+                                                                    else None
+                                                               else None)
+                                                               a0)
+                                                else None
+                                           else None
+                                      else None
+                            else None
+                       else None)
+                  a)
+           | SList _ -> None)))
+
+(** val sexp_size : sexp -> nat **)
+
+let rec sexp_size = function
+| SAtom _ -> S O
+| SList l -> S (fold_right (fun x a -> add (sexp_size x) a) O l)
+
+(** val d_colrep : sexp -> colrep option **)
+
+let d_colrep s =
+  d_colrep_fuel (sexp_size s) s
+
+(** val d_row : sexp -> rowshape option **)
+
+let d_row = function
+| SAtom _ -> None
+| SList l ->
+  (match l with
+   | [] -> None
+   | s0 :: l0 ->
+     (match s0 with
+      | SAtom s1 ->
+        (match s1 with
+         | [] -> None
+         | a::s2 ->
+           (* If this appears, you're using Ascii internals. Please don't *)
+ (fun f c ->
+  let n = Char.code c in
+  let h i = (n land (1 lsl i)) <> 0 in
+  f (h 0) (h 1) (h 2) (h 3) (h 4) (h 5) (h 6) (h 7))
+             (fun b b0 b1 b2 b3 b4 b5 b6 ->
+             if b
+             then if b0
+                  then if b1
+                       then None
+                       else if b2
+                            then None
+                            else if b3
+                                 then if b4
+                                      then if b5
+                                           then if b6
+                                                then None
+                                                else (match s2 with
+                                                      | [] -> None
+                                                      | a0::s3 ->
+                                                        (* If this appears, you're using Ascii internals. Please don't *)
+ (fun f c ->
+  let n = Char.code c in
+  let h i = (n land (1 lsl i)) <> 0 in
+  f (h 0) (h 1) (h 2) (h 3) (h 4) (h 5) (h 6) (h 7))
+                                                          (fun b7 b8 b9 b10 b11 b12 b13 b14 ->
+                                                          if b7
+                                                          then if b8
+                                                               then None
+                                                               else if b9
+                                                                    then None
+                                                                    else 
+                                                                    if b10
+                                                                    then 
+                                                                    if b11
+                                                                    then None
+                                                                    else 
+                                                                    if b12
+                                                                    then 
+                                                                    if b13
+                                                                    then 
+                                                                    if b14
+                                                                    then None
+                                                                    else 
+                                                                    (match s3 with
+                                                                    | [] ->
+                                                                    None
+                                                                    | a1::s4 ->
+                                                                    (* If this appears, you're using Ascii internals. Please don't *)
+ (fun f c ->
+  let n = Char.code c in
+  let h i = (n land (1 lsl i)) <> 0 in
+  f (h 0) (h 1) (h 2) (h 3) (h 4) (h 5) (h 6) (h 7))
+                                                                    (fun b15 b16 b17 b18 b19 b20 b21 b22 ->
+                                                                    if b15
+                                                                    then None
+                                                                    else 
+                                                                    if b16
+                                                                    then 
+                                                                    if b17
+                                                                    then 
+                                                                    if b18
+                                                                    then 
+                                                                    if b19
+                                                                    then None
+                                                                    else 
+                                                                    if b20
+                                                                    then 
+                                                                    if b21
+                                                                    then 
+                                                                    if b22
+                                                                    then None
+                                                                    else 
+                                                                    (match s4 with
+                                                                    | [] ->
+                                                                    None
+                                                                    | a2::s5 ->
+                                                                    (* If this appears, you're using Ascii internals. Please don't *)
+ (fun f c ->
+  let n = Char.code c in
+  let h i = (n land (1 lsl i)) <> 0 in
+  f (h 0) (h 1) (h 2) (h 3) (h 4) (h 5) (h 6) (h 7))
+                                                                    (fun b23 b24 b25 b26 b27 b28 b29 b30 ->
+                                                                    if b23
+                                                                    then 
+                                                                    if b24
+                                                                    then 
+                                                                    if b25
+                                                                    then 
+                                                                    if b26
+                                                                    then None
+                                                                    else 
+                                                                    if b27
+                                                                    then None
+                                                                    else 
+                                                                    if b28
+                                                                    then 
+                                                                    if b29
+                                                                    then 
+                                                                    if b30
+                                                                    then None
+                                                                    else 
+                                                                    (match s5 with
+                                                                    | [] ->
+                                                                    None
+                                                                    | a3::s6 ->
+                                                                    (* If this appears, you're using Ascii internals. Please don't *)
+ (fun f c ->
+  let n = Char.code c in
+  let h i = (n land (1 lsl i)) <> 0 in
+  f (h 0) (h 1) (h 2) (h 3) (h 4) (h 5) (h 6) (h 7))
+                                                                    (fun b31 b32 b33 b34 b35 b36 b37 b38 ->
+                                                                    if b31
+                                                                    then None
+                                                                    else 
+                                                                    if b32
+                                                                    then None
+                                                                    else 
+                                                                    if b33
+                                                                    then 
+                                                                    if b34
+                                                                    then 
+                                                                    if b35
+                                                                    then None
+                                                                    else 
+                                                                    if b36
+                                                                    then 
+                                                                    if b37
+                                                                    then 
+                                                                    if b38
+                                                                    then None
+                                                                    else 
+                                                                    (match s6 with
+                                                                    | [] ->
+                                                                    None
+                                                                    | a4::s7 ->
+                                                                    (* If this appears, you're using Ascii internals. Please don't *)
+ (fun f c ->
+  let n = Char.code c in
+  let h i = (n land (1 lsl i)) <> 0 in
+  f (h 0) (h 1) (h 2) (h 3) (h 4) (h 5) (h 6) (h 7))
+                                                                    (fun b39 b40 b41 b42 b43 b44 b45 b46 ->
+                                                                    if b39
+                                                                    then 
+                                                                    if b40
+                                                                    then None
+                                                                    else 
+                                                                    if b41
+                                                                    then 
+                                                                    if b42
+                                                                    then None
+                                                                    else 
+                                                                    if b43
+                                                                    then None
+                                                                    else 
+                                                                    if b44
+                                                                    then 
+                                                                    if b45
+                                                                    then 
+                                                                    if b46
+                                                                    then None
+                                                                    else 
+                                                                    (match s7 with
+                                                                    | [] ->
+                                                                    (match l0 with
+                                                                    | [] ->
+                                                                    None
+                                                                    | c :: l1 ->
+                                                                    (match l1 with
+                                                                    | [] ->
+                                                                    option_map
+                                                                    (fun x ->
+                                                                    RSingle
+                                                                    x)
+                                                                    (d_colrep
+                                                                    c)
+                                                                    | _ :: _ ->
+                                                                    None))
+                                                                    | _::_ ->
+                                                                    None)
+                                                                    else None
+                                                                    else None
+                                                                    else None
+                                                                    else None)
+                                                                    a4)
+                                                                    else None
+                                                                    else None
+                                                                    else None
+                                                                    else None)
+                                                                    a3)
+                                                                    else None
+                                                                    else None
+                                                                    else None
+                                                                    else None
+                                                                    else None)
+                                                                    a2)
+                                                                    else None
+                                                                    else None
+                                                                    else None
+                                                                    else None
+                                                                    else None)
+                                                                    a1)
+                                                                    else None
+                                                                    else None
+                                                                    else None
+                                                          else None)
+                                                          a0)
+                                           else None
+                                      else None
+                                 else None
+                  else None
+             else if b0
+                  then None
+                  else if b1
+                       then if b2
+                            then None
+                            else if b3
+                                 then if b4
+                                      then if b5
+                                           then if b6
+                                                then None
+                                                else (match s2 with
+                                                      | [] -> None
+                                                      | a0::s3 ->
+                                                        (* If this appears, you're using Ascii internals. Please don't *)
+ (fun f c ->
+  let n = Char.code c in
+  let h i = (n land (1 lsl i)) <> 0 in
+  f (h 0) (h 1) (h 2) (h 3) (h 4) (h 5) (h 6) (h 7))
+                                                          (fun b7 b8 b9 b10 b11 b12 b13 b14 ->
+                                                          if b7
+                                                          then if b8
+                                                               then None
+                                                               else if b9
+                                                                    then 
+                                                                    if b10
+                                                                    then None
+                                                                    else 
+                                                                    if b11
+                                                                    then 
+                                                                    if b12
+                                                                    then 
+                                                                    if b13
+                                                                    then 
+                                                                    if b14
+                                                                    then None
+                                                                    else 
+                                                                    (match s3 with
+                                                                    | [] ->
+                                                                    None
+                                                                    | a1::s4 ->
+                                                                    (* If this appears, you're using Ascii internals. Please don't *)
+ (fun f c ->
+  let n = Char.code c in
+  let h i = (n land (1 lsl i)) <> 0 in
+  f (h 0) (h 1) (h 2) (h 3) (h 4) (h 5) (h 6) (h 7))
+                                                                    (fun b15 b16 b17 b18 b19 b20 b21 b22 ->
+                                                                    if b15
+                                                                    then None
+                                                                    else 
+                                                                    if b16
+                                                                    then None
+                                                                    else 
+                                                                    if b17
+                                                                    then None
+                                                                    else 
+                                                                    if b18
+                                                                    then None
+                                                                    else 
+                                                                    if b19
+                                                                    then 
+                                                                    if b20
+                                                                    then 
+                                                                    if b21
+                                                                    then 
+                                                                    if b22
+                                                                    then None
+                                                                    else 
+                                                                    (match s4 with
+                                                                    | [] ->
+                                                                    None
+                                                                    | a2::s5 ->
+                                                                    (* If this appears, you're using Ascii internals. Please don't *)
+ (fun f c ->
+  let n = Char.code c in
+  let h i = (n land (1 lsl i)) <> 0 in
+  f (h 0) (h 1) (h 2) (h 3) (h 4) (h 5) (h 6) (h 7))
+                                                                    (fun b23 b24 b25 b26 b27 b28 b29 b30 ->
+                                                                    if b23
+                                                                    then None
+                                                                    else 
+                                                                    if b24
+                                                                    then None
+                                                                    else 
+                                                                    if b25
+                                                                    then 
+                                                                    if b26
+                                                                    then 
+                                                                    if b27
+                                                                    then None
+                                                                    else 
+                                                                    if b28
+                                                                    then 
+                                                                    if b29
+                                                                    then 
+                                                                    if b30
+                                                                    then None
+                                                                    else 
+                                                                    (match s5 with
+                                                                    | [] ->
+                                                                    None
+                                                                    | a3::s6 ->
+                                                                    (* If this appears, you're using Ascii internals. Please don't *)
+ (fun f c ->
+  let n = Char.code c in
+  let h i = (n land (1 lsl i)) <> 0 in
+  f (h 0) (h 1) (h 2) (h 3) (h 4) (h 5) (h 6) (h 7))
+                                                                    (fun b31 b32 b33 b34 b35 b36 b37 b38 ->
+                                                                    if b31
+                                                                    then 
+                                                                    if b32
+                                                                    then None
+                                                                    else 
+                                                                    if b33
+                                                                    then 
+                                                                    if b34
+                                                                    then None
+                                                                    else 
+                                                                    if b35
+                                                                    then None
+                                                                    else 
+                                                                    if b36
+                                                                    then 
+                                                                    if b37
+                                                                    then 
+                                                                    if b38
+                                                                    then None
+                                                                    else 
+                                                                    (match s6 with
+                                                                    | [] ->
+                                                                    (match l0 with
+                                                                    | [] ->
+                                                                    None
+                                                                    | s7 :: l1 ->
+                                                                    (match s7 with
+                                                                    | SAtom _ ->
+                                                                    None
+                                                                    | SList cols ->
+                                                                    (match l1 with
+                                                                    | [] ->
+                                                                    option_map
+                                                                    (fun x ->
+                                                                    RTuple x)
+                                                                    (d_list
+                                                                    d_colrep
+                                                                    cols)
+                                                                    | _ :: _ ->
+                                                                    None)))
+                                                                    | _::_ ->
+                                                                    None)
+                                                                    else None
+                                                                    else None
+                                                                    else None
+                                                                    else None)
+                                                                    a3)
+                                                                    else None
+                                                                    else None
+                                                                    else None
+                                                                    else None)
+                                                                    a2)
+                                                                    else None
+                                                                    else None
+                                                                    else None)
+                                                                    a1)
+                                                                    else None
+                                                                    else None
+                                                                    else None
+                                                                    else None
+                                                          else None)
+                                                          a0)
+                                           else None
+                                      else None
+                                 else if b4
+                                      then if b5
+                                           then if b6
+                                                then None
+                                                else (match s2 with
+                                                      | [] -> None
+                                                      | a0::s3 ->
+                                                        (* If this appears, you're using Ascii internals. Please don't *)
+ (fun f c ->
+  let n = Char.code c in
+  let h i = (n land (1 lsl i)) <> 0 in
+  f (h 0) (h 1) (h 2) (h 3) (h 4) (h 5) (h 6) (h 7))
+                                                          (fun b7 b8 b9 b10 b11 b12 b13 b14 ->
+                                                          if b7
+                                                          then if b8
+                                                               then None
+                                                               else if b9
+                                                                    then None
+                                                                    else 
+                                                                    if b10
+                                                                    then 
+                                                                    if b11
+                                                                    then None
+                                                                    else 
+                                                                    if b12
+                                                                    then 
+                                                                    if b13
+                                                                    then 
+                                                                    if b14
+                                                                    then None
+                                                                    else 
+                                                                    (match s3 with
+                                                                    | [] ->
+                                                                    None
+                                                                    | a1::s4 ->
+                                                                    (* If this appears, you're using Ascii internals. Please don't *)
+ (fun f c ->
+  let n = Char.code c in
+  let h i = (n land (1 lsl i)) <> 0 in
+  f (h 0) (h 1) (h 2) (h 3) (h 4) (h 5) (h 6) (h 7))
+                                                                    (fun b15 b16 b17 b18 b19 b20 b21 b22 ->
+                                                                    if b15
+                                                                    then 
+                                                                    if b16
+                                                                    then 
+                                                                    if b17
+                                                                    then None
+                                                                    else 
+                                                                    if b18
+                                                                    then None
+                                                                    else 
+                                                                    if b19
+                                                                    then None
+                                                                    else 
+                                                                    if b20
+                                                                    then 
+                                                                    if b21
+                                                                    then 
+                                                                    if b22
+                                                                    then None
+                                                                    else 
+                                                                    (match s4 with
+                                                                    | [] ->
+                                                                    None
+                                                                    | a2::s5 ->
+                                                                    (* If this appears, you're using Ascii internals. Please don't *)
+ (fun f c ->
+  let n = Char.code c in
+  let h i = (n land (1 lsl i)) <> 0 in
+  f (h 0) (h 1) (h 2) (h 3) (h 4) (h 5) (h 6) (h 7))
+                                                                    (fun b23 b24 b25 b26 b27 b28 b29 b30 ->
+                                                                    if b23
+                                                                    then None
+                                                                    else 
+                                                                    if b24
+                                                                    then None
+                                                                    else 
+                                                                    if b25
+                                                                    then 
+                                                                    if b26
+                                                                    then None
+                                                                    else 
+                                                                    if b27
+                                                                    then 
+                                                                    if b28
+                                                                    then 
+                                                                    if b29
+                                                                    then 
+                                                                    if b30
+                                                                    then None
+                                                                    else 
+                                                                    (match s5 with
+                                                                    | [] ->
+                                                                    (match l0 with
+                                                                    | [] ->
+                                                                    None
+                                                                    | s6 :: l1 ->
+                                                                    (match s6 with
+                                                                    | SAtom _ ->
+                                                                    None
+                                                                    | SList items ->
+                                                                    (match l1 with
+                                                                    | [] ->
+                                                                    option_map
+                                                                    (fun x ->
+                                                                    RDict x)
+                                                                    (d_list
+                                                                    (fun x ->
+                                                                    match x with
+                                                                    | SAtom _ ->
+                                                                    None
+                                                                    | SList l2 ->
+                                                                    (match l2 with
+                                                                    | [] ->
+                                                                    None
+                                                                    | s7 :: l3 ->
+                                                                    (match s7 with
+                                                                    | SAtom k ->
+                                                                    (match l3 with
+                                                                    | [] ->
+                                                                    None
+                                                                    | c :: l4 ->
+                                                                    (match l4 with
+                                                                    | [] ->
+                                                                    option_map
+                                                                    (fun c' ->
+                                                                    (k, c'))
+                                                                    (d_colrep
+                                                                    c)
+                                                                    | _ :: _ ->
+                                                                    None))
+                                                                    | SList _ ->
+                                                                    None)))
+                                                                    items)
+                                                                    | _ :: _ ->
+                                                                    None)))
+                                                                    | _::_ ->
+                                                                    None)
+                                                                    else None
+                                                                    else None
+                                                                    else None
+                                                                    else None)
+                                                                    a2)
+                                                                    else None
+                                                                    else None
+                                                                    else None
+                                                                    else None)
+                                                                    a1)
+                                                                    else None
+                                                                    else None
+                                                                    else None
+                                                          else None)
+                                                          a0)
+                                           else None
+                                      else None
+                       else None)
+             a)
+      | SList _ -> None))
+
+(** val d_terminal : sexp -> terminal option **)
+
+let d_terminal = function
+| SAtom _ -> None
+| SList l ->
+  (match l with
+   | [] -> None
+   | s0 :: l0 ->
+     (match s0 with
+      | SAtom s1 ->
+        (match s1 with
+         | [] -> None
+         | a::s2 ->
+           (* If this appears, you're using Ascii internals. Please don't *)
+ (fun f c ->
+  let n = Char.code c in
+  let h i = (n land (1 lsl i)) <> 0 in
+  f (h 0) (h 1) (h 2) (h 3) (h 4) (h 5) (h 6) (h 7))
+             (fun b b0 b1 b2 b3 b4 b5 b6 ->
+             if b
+             then if b0
+                  then None
+                  else if b1
+                       then if b2
+                            then None
+                            else if b3
+                                 then None
+                                 else if b4
+                                      then if b5
+                                           then if b6
+                                                then None
+                                                else (match s2 with
+                                                      | [] -> None
+                                                      | a0::s3 ->
+                                                        (* If this appears, you're using Ascii internals. Please don't *)
+ (fun f c ->
+  let n = Char.code c in
+  let h i = (n land (1 lsl i)) <> 0 in
+  f (h 0) (h 1) (h 2) (h 3) (h 4) (h 5) (h 6) (h 7))
+                                                          (fun b7 b8 b9 b10 b11 b12 b13 b14 ->
+                                                          if b7
+                                                          then None
+                                                          else if b8
+                                                               then None
+                                                               else if b9
+                                                                    then None
+                                                                    else 
+                                                                    if b10
+                                                                    then 
+                                                                    if b11
+                                                                    then 
+                                                                    if b12
+                                                                    then 
+                                                                    if b13
+                                                                    then 
+                                                                    if b14
+                                                                    then None
+                                                                    else 
+                                                                    (match s3 with
+                                                                    | [] ->
+                                                                    None
+                                                                    | a1::s4 ->
+                                                                    (* If this appears, you're using Ascii internals. Please don't *)
+ (fun f c ->
+  let n = Char.code c in
+  let h i = (n land (1 lsl i)) <> 0 in
+  f (h 0) (h 1) (h 2) (h 3) (h 4) (h 5) (h 6) (h 7))
+                                                                    (fun b15 b16 b17 b18 b19 b20 b21 b22 ->
+                                                                    if b15
+                                                                    then None
+                                                                    else 
+                                                                    if b16
+                                                                    then None
+                                                                    else 
+                                                                    if b17
+                                                                    then None
+                                                                    else 
+                                                                    if b18
+                                                                    then None
+                                                                    else 
+                                                                    if b19
+                                                                    then 
+                                                                    if b20
+                                                                    then 
+                                                                    if b21
+                                                                    then 
+                                                                    if b22
+                                                                    then None
+                                                                    else 
+                                                                    (match s4 with
+                                                                    | [] ->
+                                                                    None
+                                                                    | a2::s5 ->
+                                                                    (* If this appears, you're using Ascii internals. Please don't *)
+ (fun f c ->
+  let n = Char.code c in
+  let h i = (n land (1 lsl i)) <> 0 in
+  f (h 0) (h 1) (h 2) (h 3) (h 4) (h 5) (h 6) (h 7))
+                                                                    (fun b23 b24 b25 b26 b27 b28 b29 b30 ->
+                                                                    if b23
+                                                                    then None
+                                                                    else 
+                                                                    if b24
+                                                                    then None
+                                                                    else 
+                                                                    if b25
+                                                                    then 
+                                                                    if b26
+                                                                    then 
+                                                                    if b27
+                                                                    then None
+                                                                    else 
+                                                                    if b28
+                                                                    then 
+                                                                    if b29
+                                                                    then 
+                                                                    if b30
+                                                                    then None
+                                                                    else 
+                                                                    (match s5 with
+                                                                    | [] ->
+                                                                    None
+                                                                    | a3::s6 ->
+                                                                    (* If this appears, you're using Ascii internals. Please don't *)
+ (fun f c ->
+  let n = Char.code c in
+  let h i = (n land (1 lsl i)) <> 0 in
+  f (h 0) (h 1) (h 2) (h 3) (h 4) (h 5) (h 6) (h 7))
+                                                                    (fun b31 b32 b33 b34 b35 b36 b37 b38 ->
+                                                                    if b31
+                                                                    then 
+                                                                    if b32
+                                                                    then None
+                                                                    else 
+                                                                    if b33
+                                                                    then None
+                                                                    else 
+                                                                    if b34
+                                                                    then 
+                                                                    if b35
+                                                                    then None
+                                                                    else 
+                                                                    if b36
+                                                                    then 
+                                                                    if b37
+                                                                    then 
+                                                                    if b38
+                                                                    then None
+                                                                    else 
+                                                                    (match s6 with
+                                                                    | [] ->
+                                                                    None
+                                                                    | a4::s7 ->
+                                                                    (* If this appears, you're using Ascii internals. Please don't *)
+ (fun f c ->
+  let n = Char.code c in
+  let h i = (n land (1 lsl i)) <> 0 in
+  f (h 0) (h 1) (h 2) (h 3) (h 4) (h 5) (h 6) (h 7))
+                                                                    (fun b39 b40 b41 b42 b43 b44 b45 b46 ->
+                                                                    if b39
+                                                                    then 
+                                                                    if b40
+                                                                    then 
+                                                                    if b41
+                                                                    then None
+                                                                    else 
+                                                                    if b42
+                                                                    then None
+                                                                    else 
+                                                                    if b43
+                                                                    then None
+                                                                    else 
+                                                                    if b44
+                                                                    then 
+                                                                    if b45
+                                                                    then 
+                                                                    if b46
+                                                                    then None
+                                                                    else 
+                                                                    (match s7 with
+                                                                    | [] ->
+                                                                    None
+                                                                    | a5::s8 ->
+                                                                    (* If this appears, you're using Ascii internals. Please don't *)
+ (fun f c ->
+  let n = Char.code c in
+  let h i = (n land (1 lsl i)) <> 0 in
+  f (h 0) (h 1) (h 2) (h 3) (h 4) (h 5) (h 6) (h 7))
+                                                                    (fun b47 b48 b49 b50 b51 b52 b53 b54 ->
+                                                                    if b47
+                                                                    then 
+                                                                    if b48
+                                                                    then None
+                                                                    else 
+                                                                    if b49
+                                                                    then None
+                                                                    else 
+                                                                    if b50
+                                                                    then 
+                                                                    if b51
+                                                                    then None
+                                                                    else 
+                                                                    if b52
+                                                                    then 
+                                                                    if b53
+                                                                    then 
+                                                                    if b54
+                                                                    then None
+                                                                    else 
+                                                                    (match s8 with
+                                                                    | [] ->
+                                                                    None
+                                                                    | a6::s9 ->
+                                                                    (* If this appears, you're using Ascii internals. Please don't *)
+ (fun f c ->
+  let n = Char.code c in
+  let h i = (n land (1 lsl i)) <> 0 in
+  f (h 0) (h 1) (h 2) (h 3) (h 4) (h 5) (h 6) (h 7))
+                                                                    (fun b55 b56 b57 b58 b59 b60 b61 b62 ->
+                                                                    if b55
+                                                                    then None
+                                                                    else 
+                                                                    if b56
+                                                                    then None
+                                                                    else 
+                                                                    if b57
+                                                                    then 
+                                                                    if b58
+                                                                    then None
+                                                                    else 
+                                                                    if b59
+                                                                    then 
+                                                                    if b60
+                                                                    then 
+                                                                    if b61
+                                                                    then 
+                                                                    if b62
+                                                                    then None
+                                                                    else 
+                                                                    (match s9 with
+                                                                    | [] ->
+                                                                    (match l0 with
+                                                                    | [] ->
+                                                                    None
+                                                                    | s10 :: l1 ->
+                                                                    (match s10 with
+                                                                    | SAtom _ ->
+                                                                    None
+                                                                    | SList l2 ->
+                                                                    (match l2 with
+                                                                    | [] ->
+                                                                    None
+                                                                    | s11 :: l3 ->
+                                                                    (match s11 with
+                                                                    | SAtom s12 ->
+                                                                    (match s12 with
+                                                                    | [] ->
+                                                                    None
+                                                                    | a7::s13 ->
+                                                                    (* If this appears, you're using Ascii internals. Please don't *)
+ (fun f c ->
+  let n = Char.code c in
+  let h i = (n land (1 lsl i)) <> 0 in
+  f (h 0) (h 1) (h 2) (h 3) (h 4) (h 5) (h 6) (h 7))
+                                                                    (fun b63 b64 b65 b66 b67 b68 b69 b70 ->
+                                                                    if b63
+                                                                    then 
+                                                                    if b64
+                                                                    then 
+                                                                    if b65
+                                                                    then None
+                                                                    else 
+                                                                    if b66
+                                                                    then None
+                                                                    else 
+                                                                    if b67
+                                                                    then 
+                                                                    if b68
+                                                                    then 
+                                                                    if b69
+                                                                    then 
+                                                                    if b70
+                                                                    then None
+                                                                    else 
+                                                                    (match s13 with
+                                                                    | [] ->
+                                                                    None
+                                                                    | a8::s14 ->
+                                                                    (* If this appears, you're using Ascii internals. Please don't *)
+ (fun f c ->
+  let n = Char.code c in
+  let h i = (n land (1 lsl i)) <> 0 in
+  f (h 0) (h 1) (h 2) (h 3) (h 4) (h 5) (h 6) (h 7))
+                                                                    (fun b71 b72 b73 b74 b75 b76 b77 b78 ->
+                                                                    if b71
+                                                                    then None
+                                                                    else 
+                                                                    if b72
+                                                                    then None
+                                                                    else 
+                                                                    if b73
+                                                                    then 
+                                                                    if b74
+                                                                    then None
+                                                                    else 
+                                                                    if b75
+                                                                    then 
+                                                                    if b76
+                                                                    then 
+                                                                    if b77
+                                                                    then 
+                                                                    if b78
+                                                                    then None
+                                                                    else 
+                                                                    (match s14 with
+                                                                    | [] ->
+                                                                    None
+                                                                    | a9::s15 ->
+                                                                    (* If this appears, you're using Ascii internals. Please don't *)
+ (fun f c ->
+  let n = Char.code c in
+  let h i = (n land (1 lsl i)) <> 0 in
+  f (h 0) (h 1) (h 2) (h 3) (h 4) (h 5) (h 6) (h 7))
+                                                                    (fun b79 b80 b81 b82 b83 b84 b85 b86 ->
+                                                                    if b79
+                                                                    then None
+                                                                    else 
+                                                                    if b80
+                                                                    then 
+                                                                    if b81
+                                                                    then None
+                                                                    else 
+                                                                    if b82
+                                                                    then None
+                                                                    else 
+                                                                    if b83
+                                                                    then 
+                                                                    if b84
+                                                                    then 
+                                                                    if b85
+                                                                    then 
+                                                                    if b86
+                                                                    then None
+                                                                    else 
+                                                                    (match s15 with
+                                                                    | [] ->
+                                                                    (match l3 with
+                                                                    | [] ->
+                                                                    None
+                                                                    | s16 :: l4 ->
+                                                                    (match s16 with
+                                                                    | SAtom n0 ->
+                                                                    (match l4 with
+                                                                    | [] ->
+                                                                    (match l1 with
+                                                                    | [] ->
+                                                                    None
+                                                                    | s17 :: l5 ->
+                                                                    (match s17 with
+                                                                    | SAtom tree ->
+                                                                    (match l5 with
+                                                                    | [] ->
+                                                                    Some
+                                                                    (TExplicit
+                                                                    ((NStr
+                                                                    n0),
+                                                                    tree))
+                                                                    | _ :: _ ->
+                                                                    None)
+                                                                    | SList _ ->
+                                                                    None))
+                                                                    | _ :: _ ->
+                                                                    None)
+                                                                    | SList _ ->
+                                                                    None))
+                                                                    | _::_ ->
+                                                                    None)
+                                                                    else None
+                                                                    else None
+                                                                    else None
+                                                                    else None)
+                                                                    a9)
+                                                                    else None
+                                                                    else None
+                                                                    else None
+                                                                    else None)
+                                                                    a8)
+                                                                    else None
+                                                                    else None
+                                                                    else None
+                                                                    else None
+                                                                    else 
+                                                                    if b64
+                                                                    then None
+                                                                    else 
+                                                                    if b65
+                                                                    then 
+                                                                    if b66
+                                                                    then 
+                                                                    if b67
+                                                                    then None
+                                                                    else 
+                                                                    if b68
+                                                                    then 
+                                                                    if b69
+                                                                    then 
+                                                                    if b70
+                                                                    then None
+                                                                    else 
+                                                                    (match s13 with
+                                                                    | [] ->
+                                                                    None
+                                                                    | a8::s14 ->
+                                                                    (* If this appears, you're using Ascii internals. Please don't *)
+ (fun f c ->
+  let n = Char.code c in
+  let h i = (n land (1 lsl i)) <> 0 in
+  f (h 0) (h 1) (h 2) (h 3) (h 4) (h 5) (h 6) (h 7))
+                                                                    (fun b71 b72 b73 b74 b75 b76 b77 b78 ->
+                                                                    if b71
+                                                                    then 
+                                                                    if b72
+                                                                    then None
+                                                                    else 
+                                                                    if b73
+                                                                    then None
+                                                                    else 
+                                                                    if b74
+                                                                    then 
+                                                                    if b75
+                                                                    then None
+                                                                    else 
+                                                                    if b76
+                                                                    then 
+                                                                    if b77
+                                                                    then 
+                                                                    if b78
+                                                                    then None
+                                                                    else 
+                                                                    (match s14 with
+                                                                    | [] ->
+                                                                    None
+                                                                    | a9::s15 ->
+                                                                    (* If this appears, you're using Ascii internals. Please don't *)
+ (fun f c ->
+  let n = Char.code c in
+  let h i = (n land (1 lsl i)) <> 0 in
+  f (h 0) (h 1) (h 2) (h 3) (h 4) (h 5) (h 6) (h 7))
+                                                                    (fun b79 b80 b81 b82 b83 b84 b85 b86 ->
+                                                                    if b79
+                                                                    then 
+                                                                    if b80
+                                                                    then 
+                                                                    if b81
+                                                                    then None
+                                                                    else 
+                                                                    if b82
+                                                                    then None
+                                                                    else 
+                                                                    if b83
+                                                                    then 
+                                                                    if b84
+                                                                    then 
+                                                                    if b85
+                                                                    then 
+                                                                    if b86
+                                                                    then None
+                                                                    else 
+                                                                    (match s15 with
+                                                                    | [] ->
+                                                                    None
+                                                                    | a10::s16 ->
+                                                                    (* If this appears, you're using Ascii internals. Please don't *)
+ (fun f c ->
+  let n = Char.code c in
+  let h i = (n land (1 lsl i)) <> 0 in
+  f (h 0) (h 1) (h 2) (h 3) (h 4) (h 5) (h 6) (h 7))
+                                                                    (fun b87 b88 b89 b90 b91 b92 b93 b94 ->
+                                                                    if b87
+                                                                    then None
+                                                                    else 
+                                                                    if b88
+                                                                    then None
+                                                                    else 
+                                                                    if b89
+                                                                    then 
+                                                                    if b90
+                                                                    then None
+                                                                    else 
+                                                                    if b91
+                                                                    then 
+                                                                    if b92
+                                                                    then 
+                                                                    if b93
+                                                                    then 
+                                                                    if b94
+                                                                    then None
+                                                                    else 
+                                                                    (match s16 with
+                                                                    | [] ->
+                                                                    (match l3 with
+                                                                    | [] ->
+                                                                    None
+                                                                    | names :: l4 ->
+                                                                    (match l4 with
+                                                                    | [] ->
+                                                                    (match l1 with
+                                                                    | [] ->
+                                                                    None
+                                                                    | s17 :: l5 ->
+                                                                    (match s17 with
+                                                                    | SAtom tree ->
+                                                                    (match l5 with
+                                                                    | [] ->
+                                                                    option_map
+                                                                    (fun l6 ->
+                                                                    TExplicit
+                                                                    ((NList
+                                                                    l6),
+                                                                    tree))
+                                                                    (d_strs
+                                                                    names)
+                                                                    | _ :: _ ->
+                                                                    None)
+                                                                    | SList _ ->
+                                                                    None))
+                                                                    | _ :: _ ->
+                                                                    None))
+                                                                    | _::_ ->
+                                                                    None)
+                                                                    else None
+                                                                    else None
+                                                                    else None
+                                                                    else None)
+                                                                    a10)
+                                                                    else None
+                                                                    else None
+                                                                    else None
+                                                                    else None
+                                                                    else None)
+                                                                    a9)
+                                                                    else None
+                                                                    else None
+                                                                    else None
+                                                                    else None)
+                                                                    a8)
+                                                                    else None
+                                                                    else None
+                                                                    else None
+                                                                    else None)
+                                                                    a7)
+                                                                    | SList _ ->
+                                                                    None))))
+                                                                    | _::_ ->
+                                                                    None)
+                                                                    else None
+                                                                    else None
+                                                                    else None
+                                                                    else None)
+                                                                    a6)
+                                                                    else None
+                                                                    else None
+                                                                    else None
+                                                                    else None)
+                                                                    a5)
+                                                                    else None
+                                                                    else None
+                                                                    else None
+                                                                    else None)
+                                                                    a4)
+                                                                    else None
+                                                                    else None
+                                                                    else None
+                                                                    else None)
+                                                                    a3)
+                                                                    else None
+                                                                    else None
+                                                                    else None
+                                                                    else None)
+                                                                    a2)
+                                                                    else None
+                                                                    else None
+                                                                    else None)
+                                                                    a1)
+                                                                    else None
+                                                                    else None
+                                                                    else None
+                                                                    else None)
+                                                          a0)
+                                           else None
+                                      else None
+                       else if b2
+                            then if b3
+                                 then None
+                                 else if b4
+                                      then if b5
+                                           then if b6
+                                                then None
+                                                else (match s2 with
+                                                      | [] -> None
+                                                      | a0::s3 ->
+                                                        (* If this appears, you're using Ascii internals. Please don't *)
+ (fun f c ->
+  let n = Char.code c in
+  let h i = (n land (1 lsl i)) <> 0 in
+  f (h 0) (h 1) (h 2) (h 3) (h 4) (h 5) (h 6) (h 7))
+                                                          (fun b7 b8 b9 b10 b11 b12 b13 b14 ->
+                                                          if b7
+                                                          then if b8
+                                                               then None
+                                                               else if b9
+                                                                    then 
+                                                                    if b10
+                                                                    then 
+                                                                    if b11
+                                                                    then None
+                                                                    else 
+                                                                    if b12
+                                                                    then 
+                                                                    if b13
+                                                                    then 
+                                                                    if b14
+                                                                    then None
+                                                                    else 
+                                                                    (match s3 with
+                                                                    | [] ->
+                                                                    None
+                                                                    | a1::s4 ->
+                                                                    (* If this appears, you're using Ascii internals. Please don't *)
+ (fun f c ->
+  let n = Char.code c in
+  let h i = (n land (1 lsl i)) <> 0 in
+  f (h 0) (h 1) (h 2) (h 3) (h 4) (h 5) (h 6) (h 7))
+                                                                    (fun b15 b16 b17 b18 b19 b20 b21 b22 ->
+                                                                    if b15
+                                                                    then None
+                                                                    else 
+                                                                    if b16
+                                                                    then None
+                                                                    else 
+                                                                    if b17
+                                                                    then None
+                                                                    else 
+                                                                    if b18
+                                                                    then None
+                                                                    else 
+                                                                    if b19
+                                                                    then 
+                                                                    if b20
+                                                                    then 
+                                                                    if b21
+                                                                    then 
+                                                                    if b22
+                                                                    then None
+                                                                    else 
+                                                                    (match s4 with
+                                                                    | [] ->
+                                                                    None
+                                                                    | a2::s5 ->
+                                                                    (* If this appears, you're using Ascii internals. Please don't *)
+ (fun f c ->
+  let n = Char.code c in
+  let h i = (n land (1 lsl i)) <> 0 in
+  f (h 0) (h 1) (h 2) (h 3) (h 4) (h 5) (h 6) (h 7))
+                                                                    (fun b23 b24 b25 b26 b27 b28 b29 b30 ->
+                                                                    if b23
+                                                                    then None
+                                                                    else 
+                                                                    if b24
+                                                                    then None
+                                                                    else 
+                                                                    if b25
+                                                                    then 
+                                                                    if b26
+                                                                    then 
+                                                                    if b27
+                                                                    then None
+                                                                    else 
+                                                                    if b28
+                                                                    then 
+                                                                    if b29
+                                                                    then 
+                                                                    if b30
+                                                                    then None
+                                                                    else 
+                                                                    (match s5 with
+                                                                    | [] ->
+                                                                    None
+                                                                    | a3::s6 ->
+                                                                    (* If this appears, you're using Ascii internals. Please don't *)
+ (fun f c ->
+  let n = Char.code c in
+  let h i = (n land (1 lsl i)) <> 0 in
+  f (h 0) (h 1) (h 2) (h 3) (h 4) (h 5) (h 6) (h 7))
+                                                                    (fun b31 b32 b33 b34 b35 b36 b37 b38 ->
+                                                                    if b31
+                                                                    then 
+                                                                    if b32
+                                                                    then None
+                                                                    else 
+                                                                    if b33
+                                                                    then None
+                                                                    else 
+                                                                    if b34
+                                                                    then 
+                                                                    if b35
+                                                                    then None
+                                                                    else 
+                                                                    if b36
+                                                                    then 
+                                                                    if b37
+                                                                    then 
+                                                                    if b38
+                                                                    then None
+                                                                    else 
+                                                                    (match s6 with
+                                                                    | [] ->
+                                                                    None
+                                                                    | a4::s7 ->
+                                                                    (* If this appears, you're using Ascii internals. Please don't *)
+ (fun f c ->
+  let n = Char.code c in
+  let h i = (n land (1 lsl i)) <> 0 in
+  f (h 0) (h 1) (h 2) (h 3) (h 4) (h 5) (h 6) (h 7))
+                                                                    (fun b39 b40 b41 b42 b43 b44 b45 b46 ->
+                                                                    if b39
+                                                                    then 
+                                                                    if b40
+                                                                    then 
+                                                                    if b41
+                                                                    then None
+                                                                    else 
+                                                                    if b42
+                                                                    then None
+                                                                    else 
+                                                                    if b43
+                                                                    then None
+                                                                    else 
+                                                                    if b44
+                                                                    then 
+                                                                    if b45
+                                                                    then 
+                                                                    if b46
+                                                                    then None
+                                                                    else 
+                                                                    (match s7 with
+                                                                    | [] ->
+                                                                    None
+                                                                    | a5::s8 ->
+                                                                    (* If this appears, you're using Ascii internals. Please don't *)
+ (fun f c ->
+  let n = Char.code c in
+  let h i = (n land (1 lsl i)) <> 0 in
+  f (h 0) (h 1) (h 2) (h 3) (h 4) (h 5) (h 6) (h 7))
+                                                                    (fun b47 b48 b49 b50 b51 b52 b53 b54 ->
+                                                                    if b47
+                                                                    then 
+                                                                    if b48
+                                                                    then None
+                                                                    else 
+                                                                    if b49
+                                                                    then None
+                                                                    else 
+                                                                    if b50
+                                                                    then 
+                                                                    if b51
+                                                                    then None
+                                                                    else 
+                                                                    if b52
+                                                                    then 
+                                                                    if b53
+                                                                    then 
+                                                                    if b54
+                                                                    then None
+                                                                    else 
+                                                                    (match s8 with
+                                                                    | [] ->
+                                                                    None
+                                                                    | a6::s9 ->
+                                                                    (* If this appears, you're using Ascii internals. Please don't *)
+ (fun f c ->
+  let n = Char.code c in
+  let h i = (n land (1 lsl i)) <> 0 in
+  f (h 0) (h 1) (h 2) (h 3) (h 4) (h 5) (h 6) (h 7))
+                                                                    (fun b55 b56 b57 b58 b59 b60 b61 b62 ->
+                                                                    if b55
+                                                                    then None
+                                                                    else 
+                                                                    if b56
+                                                                    then None
+                                                                    else 
+                                                                    if b57
+                                                                    then 
+                                                                    if b58
+                                                                    then None
+                                                                    else 
+                                                                    if b59
+                                                                    then 
+                                                                    if b60
+                                                                    then 
+                                                                    if b61
+                                                                    then 
+                                                                    if b62
+                                                                    then None
+                                                                    else 
+                                                                    (match s9 with
+                                                                    | [] ->
+                                                                    (match l0 with
+                                                                    | [] ->
+                                                                    Some
+                                                                    TImplicit
+                                                                    | _ :: _ ->
+                                                                    None)
+                                                                    | _::_ ->
+                                                                    None)
+                                                                    else None
+                                                                    else None
+                                                                    else None
+                                                                    else None)
+                                                                    a6)
+                                                                    else None
+                                                                    else None
+                                                                    else None
+                                                                    else None)
+                                                                    a5)
+                                                                    else None
+                                                                    else None
+                                                                    else None
+                                                                    else None)
+                                                                    a4)
+                                                                    else None
+                                                                    else None
+                                                                    else None
+                                                                    else None)
+                                                                    a3)
+                                                                    else None
+                                                                    else None
+                                                                    else None
+                                                                    else None)
+                                                                    a2)
+                                                                    else None
+                                                                    else None
+                                                                    else None)
+                                                                    a1)
+                                                                    else None
+                                                                    else None
+                                                                    else None
+                                                                    else None
+                                                          else None)
+                                                          a0)
+                                           else None
+                                      else None
+                            else None
+             else None)
+             a)
+      | SList _ -> None))
+
+(** val s_column : column -> sexp **)
+
+let s_column c =
+  SList ((SAtom c.c_name) :: ((SAtom c.c_var) :: ((SAtom
+    c.c_type) :: ((s_bool c.c_is_vec) :: []))))
+
+(** val s_schema : schema -> sexp **)
+
+let s_schema s =
+  SList ((SAtom s.sc_tree) :: ((SList
+    (map s_column s.sc_columns)) :: ((s_strs s.sc_class_decl) :: ((s_strs
+                                                                    s.sc_book) :: ((SAtom
+    s.sc_fill) :: ((s_strs s.sc_clears) :: ((SList ((SAtom
+    (fst s.sc_descr)) :: ((SAtom
+    (snd s.sc_descr)) :: []))) :: ((s_nat s.sc_next_index) :: []))))))))
+
+(** val run_schema : sexp -> sexp **)
+
+let run_schema = function
+| SAtom _ -> bad_input
+| SList l ->
+  (match l with
+   | [] -> bad_input
+   | b :: l0 ->
+     (match l0 with
+      | [] -> bad_input
+      | i :: l1 ->
+        (match l1 with
+         | [] -> bad_input
+         | t :: l2 ->
+           (match l2 with
+            | [] -> bad_input
+            | r :: l3 ->
+              (match l3 with
+               | [] ->
+                 (match d_backend b with
+                  | Some b' ->
+                    (match d_nat i with
+                     | Some i' ->
+                       (match d_terminal t with
+                        | Some t' ->
+                          (match d_row r with
+                           | Some r' ->
+                             s_result s_schema
+                               (translate_terminal b' i' t' r')
+                           | None -> bad_input)
+                        | None -> bad_input)
+                     | None -> bad_input)
+                  | None -> bad_input)
+               | _ :: _ -> bad_input)))))
+
+(** val run_expected : sexp -> sexp **)
+
+let run_expected = function
+| SAtom _ -> bad_input
+| SList l ->
+  (match l with
+   | [] -> bad_input
+   | b :: l0 ->
+     (match l0 with
+      | [] -> bad_input
+      | t :: l1 ->
+        (match l1 with
+         | [] -> bad_input
+         | r :: l2 ->
+           (match l2 with
+            | [] ->
+              (match d_backend b with
+               | Some b' ->
+                 (match d_terminal t with
+                  | Some t' ->
+                    (match d_row r with
+                     | Some r' ->
+                       SList ((s_strs (expected_names t' r')) :: ((SAtom
+                         (expected_tree b' t')) :: []))
+                     | None -> bad_input)
+                  | None -> bad_input)
+               | None -> bad_input)
+            | _ :: _ -> bad_input))))
+
 (** val dispatch : char list -> sexp -> sexp **)
 
 let dispatch cmd arg =
@@ -7877,6 +11023,15 @@ let dispatch cmd arg =
             else if eqb0 cmd
                       ('c'::('p'::('p'::('.'::('r'::('u'::('n'::[])))))))
                  then run_run arg
-                 else s_tag
-                        ('u'::('n'::('k'::('n'::('o'::('w'::('n'::('-'::('c'::('o'::('m'::('m'::('a'::('n'::('d'::[])))))))))))))))
-                        ((SAtom cmd) :: [])
+                 else if eqb0 cmd
+                           ('c'::('0'::('3'::('.'::('s'::('c'::('h'::('e'::('m'::('a'::[]))))))))))
+                      then run_schema arg
+                      else if eqb0 cmd
+                                ('c'::('0'::('3'::('.'::('e'::('x'::('p'::('e'::('c'::('t'::('e'::('d'::[]))))))))))))
+                           then run_expected arg
+                           else if eqb0 cmd
+                                     ('c'::('0'::('3'::('.'::('f'::('i'::('l'::('l'::('c'::('h'::('e'::('c'::('k'::[])))))))))))))
+                                then run_fillcheck arg
+                                else s_tag
+                                       ('u'::('n'::('k'::('n'::('o'::('w'::('n'::('-'::('c'::('o'::('m'::('m'::('a'::('n'::('d'::[])))))))))))))))
+                                       ((SAtom cmd) :: [])
